@@ -65,9 +65,9 @@ theorem alookup_none_iff {α : Type} (k : Str) (xs : List (Str × α)) :
 
 /-- a character that may occur in a header segment -/
 def okChar (c : Char) : Bool :=
-  c != '.' && c != ':' && c != '=' && c != '*' && !pyWs c && c != '{' && c != Cell.tmpC
+  c != '.' && c != ':' && c != '=' && c != '*' && !pyWs c && c != '{'
 
-/-- a header segment: non-empty, no `.`, `:`, `=`, `*`, `{`, U+0001, no whitespace -/
+/-- a header segment: non-empty, no `.`, `:`, `=`, `*`, `{`, no whitespace -/
 def simpleName (n : Str) : Bool := !n.isEmpty && n.all okChar
 
 /-- a (dotted) header: like a segment, but `.` allowed -/
@@ -75,7 +75,7 @@ def keyChar (c : Char) : Bool := c != ':' && c != '=' && c != '*' && !pyWs c
 
 theorem okChar_keyChar {c : Char} (h : okChar c = true) : keyChar c = true := by
   simp [okChar, keyChar] at h ⊢
-  obtain ⟨⟨⟨⟨⟨⟨h1, h2⟩, h3⟩, h4⟩, h5⟩, h6⟩, h7⟩ := h
+  obtain ⟨⟨⟨⟨⟨h1, h2⟩, h3⟩, h4⟩, h5⟩, h6⟩ := h
   exact ⟨⟨⟨h2, h3⟩, h4⟩, h5⟩
 
 theorem takeWhile_all {α : Type} (p : α → Bool) : ∀ (l : List α), (∀ x ∈ l, p x = true) → l.takeWhile p = l
@@ -133,7 +133,7 @@ theorem splitDot_append : ∀ (a b : Str), (∀ c ∈ a, c ≠ '.') →
 theorem simpleName_no_dot {n : Str} (h : simpleName n = true) : ∀ c ∈ n, c ≠ '.' := by
   intro c hc
   simp [simpleName, okChar] at h
-  exact (h.2 c hc).1.1.1.1.1.1
+  exact (h.2 c hc).1.1.1.1.1
 
 theorem simpleName_keyChar {n : Str} (h : simpleName n = true) : ∀ c ∈ n, keyChar c = true := by
   intro c hc
@@ -536,11 +536,9 @@ theorem fieldRT_single {lay : Layout} {fs : List Field} {n : Str} {ty : Ty} {d :
 /-! ### basic fields -/
 
 theorem strOk_spec {s : Str} (h : strOk s = true) :
-    strip pyWs s = s ∧ s.contains '{' = false ∧ Cell.tmpC ∉ s := by
+    strip pyWs s = s ∧ s.contains '{' = false ∧ True := by
   simp only [strOk, Bool.and_eq_true, beq_iff_eq, Bool.not_eq_true'] at h
-  refine ⟨h.1.1, h.1.2, ?_⟩
-  have := h.2
-  simpa using this
+  exact ⟨h.1, h.2, trivial⟩
 
 theorem parseAsString_ok {s : Str} (h1 : strip pyWs s = s) (h2 : s.contains '{' = false) :
     parseAsString s = .ok s := by
